@@ -28,6 +28,8 @@ type adapter struct {
 	name string
 	mk   func(ns, name, rv, labels string) metav1.Object
 	run  func(base kcache.Controller, o *obs)
+	// stalled: one Subscribe whose consumer reads nothing until o.release is closed
+	stalled func(base kcache.Controller, o *obs)
 }
 
 var adapters []adapter
@@ -42,6 +44,27 @@ type obs struct {
 	closers                                  []func()
 	dones                                    []func() <-chan struct{}
 	doneAfterClose                           []bool
+	release                                  chan struct{}
+	stalled                                  []string
+	stalledClosed                            bool
+}
+
+func stalledUntyped(base kcache.Controller, o *obs) {
+	sub, err := base.Subscribe()
+	if err != nil {
+		o.errs = append(o.errs, "Subscribe:"+err.Error())
+		return
+	}
+	<-sub.Ready()
+	go func() {
+		<-o.release
+		for e := range sub.Events() {
+			o.stalled = append(o.stalled, hx.EventString(e))
+		}
+		o.stalledClosed = true
+	}()
+	o.closers = append(o.closers, sub.Close)
+	o.dones = append(o.dones, sub.Done)
 }
 
 // runUntyped is the same tree on the untyped core.
@@ -110,13 +133,56 @@ func runUntyped(base kcache.Controller, o *obs) {
 }
 
 type inst struct {
+	stall    bool // the stalled-beyond-buffer scenario
 	ad       adapter
 	typed    obs
 	untyped  obs
 	finished bool
 }
 
+// runStalled: a consumer that reads nothing while 3 x buffer events are published (paced: the library's internal
+// stages never lag), then drains and closes: the typed subscription keeps and loses exactly what the untyped one does.
+func (in *inst) runStalled() {
+	mk := in.ad.mk
+	bases := []*hx.Root{hx.NewRoot(filter.Null()), hx.NewRoot(filter.Null())}
+	for _, b := range bases {
+		b.Init([]metav1.Object{mk("ns", "a", "1", "l=1")})
+	}
+	in.typed.release, in.untyped.release = make(chan struct{}), make(chan struct{})
+	in.ad.stalled(bases[0].Pub, &in.typed)
+	stalledUntyped(bases[1].Pub, &in.untyped)
+	vs.SleepIdle(time.Duration(1))
+	for i := 2; i <= 7; i++ {
+		for _, b := range bases {
+			b.Publish(kcache.NewEvent(kcache.EventTypeUpdate, mk("ns", "a", fmt.Sprint(i), "l=1")))
+		}
+		vs.SleepIdle(time.Duration(1))
+	}
+	close(in.typed.release)
+	close(in.untyped.release)
+	vs.SleepIdle(time.Duration(1))
+	for _, o := range []*obs{&in.typed, &in.untyped} {
+		for _, c := range o.closers {
+			c()
+		}
+	}
+	vs.SleepIdle(time.Duration(1))
+	for _, o := range []*obs{&in.typed, &in.untyped} {
+		for _, d := range o.dones {
+			o.doneAfterClose = append(o.doneAfterClose, hx.IsClosed(d()))
+		}
+	}
+	in.finished = true
+	for _, b := range bases {
+		b.Stop()
+	}
+}
+
 func (in *inst) run() {
+	if in.stall {
+		in.runStalled()
+		return
+	}
 	mk := in.ad.mk
 	foreign := func(rv, labels string) metav1.Object {
 		if in.ad.name == "pod" {
@@ -203,6 +269,15 @@ func (in *inst) check(r *vs.Result) []string {
 			msgs = append(msgs, fmt.Sprintf("%s | %s: typed %v, untyped %v", class, n, tv, uv))
 		}
 	}
+	if in.stall {
+		if strings.Join(t.stalled, " ") != strings.Join(u.stalled, " ") || t.stalledClosed != u.stalledClosed {
+			msgs = append(msgs, fmt.Sprintf("typed stalled subscription keeps other events than the untyped one | %s (buffer modelled as 2, 6 events while the consumer is stalled): typed drained %v (Events() closed after Close: %v), untyped drained %v (closed: %v)", n, t.stalled, t.stalledClosed, u.stalled, u.stalledClosed))
+		}
+		if fmt.Sprint(t.doneAfterClose) != fmt.Sprint(u.doneAfterClose) {
+			msgs = append(msgs, fmt.Sprintf("typed lifecycle differs | %s: Done() after Close typed %v untyped %v", n, t.doneAfterClose, u.doneAfterClose))
+		}
+		return msgs
+	}
 	cmp("subscription events", t.sub, u.sub)
 	cmp("filtered subscription events", t.fsub, u.fsub)
 	cmp("for-filter clone events", t.cloneSub, u.cloneSub)
@@ -238,7 +313,7 @@ func Property() runner.Property {
 	return runner.Property{
 		ID:    "C20",
 		Level: "model_checking",
-		Rule:  "behaviour: for each of the 12 typed packages the tree {Subscribe, SubscribeWithFilter, CloneForFilter+Refilter+Subscribe, NewMonitor} runs through the real typed wrapper over a publisher-level base and, side by side, on the untyped core over an identical base; the history contains objects of a foreign type (in the first list and as an event); schedules within d deviations of the default (d=1 quick, 2 thorough); oracle: typed event streams, monitor callbacks, cache lists, readiness and Done() equal the untyped ones restricted to the type, foreign objects are skipped, nothing panics. source level (sequential_part): the 12 typed generated.go and 8 generated joins equal their templates instantiated with the Makefile's parameters (structural comparison of every top-level declaration), and the 12 typed clients issue GET on the API path of their own resource and namespace for List and Watch (48 requests against a recording transport)",
+		Rule:  "behaviour: for each of the 12 typed packages the tree {Subscribe, SubscribeWithFilter, CloneForFilter+Refilter+Subscribe, NewMonitor} runs through the real typed wrapper over a publisher-level base and, side by side, on the untyped core over an identical base; the history contains objects of a foreign type (in the first list and as an event); schedules within d deviations of the default (d=1 quick, 2 thorough); plus, per package, a subscription whose consumer is stalled through 3 x buffer events (buffer modelled as 2), then drains and closes; oracle: typed event streams, monitor callbacks, cache lists, readiness and Done() equal the untyped ones restricted to the type, foreign objects are skipped, nothing panics. source level (sequential_part): the 12 typed generated.go and 8 generated joins equal their templates instantiated with the Makefile's parameters (structural comparison of every top-level declaration), and the 12 typed clients issue GET on the API path of their own resource and namespace for List and Watch (120 requests against a recording transport: list, watch, both repeated, and watch called without the Watch flag)",
 		Assumptions: []string{
 			"publisher-level bases; deviation-bounded schedules",
 			"template equality is an exhaustive structural equality over 20 instances, not a behavioural exploration",
@@ -260,6 +335,14 @@ func Property() runner.Property {
 						return explore.Instance{Run: in.run, Check: in.check, Outcome: in.outcome}
 					},
 				}, Split: true})
+				out = append(out, runner.Sc{Scenario: explore.Scenario{
+					Name: "c20/stalled-beyond-buffer/" + ad.name, Mode: "S2", Bound: d,
+					Cfg: vs.Config{Timers: vs.TimersIdle, MaxSteps: 400000, Bufsiz: 2},
+					New: func() explore.Instance {
+						in := &inst{ad: ad, stall: true}
+						return explore.Instance{Run: in.run, Check: in.check, Outcome: in.outcome}
+					},
+				}})
 			}
 			return out
 		},
